@@ -169,7 +169,27 @@ func init() {
 	externals["time.Now"] = extTimeNow
 	externals["time.Sleep"] = nop
 	externals["time.Since"] = func(fr *frame, args []value) value { return int64(0) }
-	externals["time.Until"] = func(fr *frame, args []value) value { return int64(0) }
+	externals["time.Until"] = func(fr *frame, args []value) value { return int64(3600_000_000_000) } // deadlines never expire
+	externals["time.AfterFunc"] = func(fr *frame, args []value) value {
+		// the function is never run: timers do not fire under the engine
+		t := fr.fn.Signature.Results().At(0).Type()
+		cell := zero(mustDeref(t))
+		return &cell
+	}
+	externals["(*time.Timer).Stop"] = func(fr *frame, args []value) value { return true }
+	externals["(*time.Timer).Reset"] = func(fr *frame, args []value) value { return true }
+	externals["(*time.Ticker).Stop"] = func(fr *frame, args []value) value { return nil }
+	newTimer := func(fr *frame, args []value) value {
+		t := fr.fn.Signature.Results().At(0).Type()
+		cell := zero(mustDeref(t))
+		// field 0 is the channel C: present but never ready
+		cell.(structure)[0] = make(chan value, 1)
+		return &cell
+	}
+	externals["time.NewTimer"] = newTimer
+	externals["time.NewTicker"] = newTimer
+	externals["time.After"] = func(fr *frame, args []value) value { return make(chan value, 1) }
+	externals["time.Tick"] = func(fr *frame, args []value) value { return make(chan value, 1) }
 	externals["time.runtimeNano"] = func(fr *frame, args []value) value { return fr.i.tick() }
 	externals["time.now"] = func(fr *frame, args []value) value {
 		t := fr.i.tick()
